@@ -148,6 +148,43 @@ def solve(constraints, timeout_ms=None, cvc5=True):
     return "unknown", "z3-5.1,cvc5" if cvc5 else "z3-5.1", time.time() - t0, None
 
 
+def _free_symbols(t, cache={}):
+    """names of the uninterpreted constants / functions occurring in a term"""
+    out = set()
+    seen = set()
+    stack = [t]
+    while stack:
+        x = stack.pop()
+        if x.get_id() in seen:
+            continue
+        seen.add(x.get_id())
+        if z3.is_quantifier(x):
+            stack.append(x.body())
+            continue
+        if z3.is_app(x):
+            if x.decl().kind() == z3.Z3_OP_UNINTERPRETED:
+                out.add(x.decl().name())
+            stack.extend(x.children())
+    return out
+
+
+def slice_constraints(constraints, goal):
+    """the constraints transitively connected to `goal` through shared uninterpreted symbols (cone of influence)"""
+    syms = [_free_symbols(c) for c in constraints]
+    live = set(_free_symbols(goal))
+    keep = [False] * len(constraints)
+    changed = True
+    while changed:
+        changed = False
+        for i, s in enumerate(syms):
+            if not keep[i] and (not s or s & live):
+                keep[i] = True
+                if not s <= live:
+                    live |= s
+                    changed = True
+    return [c for c, k in zip(constraints, keep) if k]
+
+
 _CVC5 = None
 
 
@@ -225,6 +262,7 @@ class Explorer:
 
     # ---- per-path state
     def reset_path(self, prefix):
+        INBOUNDS.clear()  # per-path facts about in-bounds slices (core.slen / lib.pc_slice, opt-in)
         self.decisions = list(prefix)
         self.pos = 0
         self.pc = []
@@ -240,15 +278,20 @@ class Explorer:
         self.path_obligations = []
         self.trace_stack = []
         self.feas_solver = z3.Solver()
-        self.feas_solver.set("timeout", FEAS_TIMEOUT_MS)
+        self.feas_solver.set("timeout", getattr(self, "feas_timeout_ms", FEAS_TIMEOUT_MS))  # scenario option feas_timeout_ms (unknown counts as feasible)
 
     def note(self, kind, what):
         self.notes_all.setdefault(kind, set()).add(what)
 
     def fresh(self, kind, hint="v"):
-        n = self.counter.get(hint, 0)
-        self.counter[hint] = n + 1
-        name = hint if n == 0 else f"{hint}#{n}"
+        # never reuse the name of a symbol the scenario (or an earlier havoc) already declared on this path: the same
+        # name would be the same z3 constant, silently identifying two different values
+        while True:
+            n = self.counter.get(hint, 0)
+            self.counter[hint] = n + 1
+            name = hint if n == 0 else f"{hint}#{n}"
+            if name not in self.symbols:
+                break
         return self.mk_symbol(kind, name)
 
     def mk_symbol(self, kind, name):
@@ -378,6 +421,17 @@ class Explorer:
         if z3.is_true(cs):
             self.results.append(Obligation(name, "proved", "simplifier", 0.0, path=list(self.decisions[: self.pos])))
             return
+        if getattr(self, "slice_pc", False):
+            # scenario option slice_pc (opt-in): first try with only the hypotheses connected to the goal through shared
+            # uninterpreted symbols. Dropping hypotheses only weakens the query: unsat there is a proof; any other answer is
+            # ignored and the full query below decides.
+            sl = slice_constraints(self.pc, z3.Not(cond))
+            if len(sl) < len(self.pc):
+                st0, be0, dt0, _ = solve(sl + [z3.Not(cond)], timeout_ms=getattr(self, "z3_timeout_ms", None), cvc5=False)
+                self.solver_seconds += dt0
+                if st0 == "unsat":
+                    self.results.append(Obligation(name, "proved", be0 + "/sliced", dt0, path=list(self.decisions[: self.pos])))
+                    return
         # scenario option z3_timeout_ms: hand string-heavy queries to cvc5 sooner (portfolio order unchanged)
         status, backend, dt, model = solve(self.pc + [z3.Not(cond)], timeout_ms=getattr(self, "z3_timeout_ms", None))
         self.solver_seconds += dt
@@ -839,8 +893,10 @@ class NativeVC:
         self.calls = []
         self._patches = []
         self._counter = {}
+        self._declared = set()
 
     def _val(self, name, default):
+        self._declared.add(name)
         v = self.values.get(name, default)
         if isinstance(v, dict):
             if "bytes" in v:
@@ -881,9 +937,13 @@ class NativeVC:
         return cls(self._val(name, list(cls)[0].value))
 
     def _fresh(self, hint, default):
-        n = self._counter.get(hint, 0)
-        self._counter[hint] = n + 1
-        return self._val(hint if n == 0 else f"{hint}#{n}", default)
+        while True:  # mirrors Explorer.fresh: skip names already declared on this run
+            n = self._counter.get(hint, 0)
+            self._counter[hint] = n + 1
+            name = hint if n == 0 else f"{hint}#{n}"
+            if name not in self._declared:
+                break
+        return self._val(name, default)
 
     def fresh_bool(self, hint):
         return bool(self._fresh(hint, False))
